@@ -54,6 +54,7 @@ type Worker struct {
 	nseq  int
 	cmds  int64
 	slowChecks int
+	dyingRows  int64 // publishes sent (and judged) while the deletion of their topic was parked half-way
 }
 
 func seqSeed(seed int64, idx int, env string) int64 {
@@ -104,8 +105,12 @@ func (w *Worker) runSeq(seq []Row, idx int, slowReqCheck bool) (mm *Mismatch) {
 	var helper *TConn
 	var helperSince time.Time
 	var subTopic, subChan string
+	var dying *DyingTopic // name class "dying": a topic of this sequence whose deletion is parked (dying.go)
 	defer func() {
 		t.Close()
+		if dying != nil {
+			dying.Release(readDeadline) // whatever happened: nothing stays parked
+		}
 		if helper != nil {
 			helper.Close()
 		}
@@ -132,13 +137,35 @@ func (w *Worker) runSeq(seq []Row, idx int, slowReqCheck bool) (mm *Mismatch) {
 	for _, r := range seq {
 		last = r
 		g.Held = t.Held
+		var dyingErr error
+		isDying := isPub(r.Cmd.Op) && r.Cmd.A == "dying"
+		if isDying && dying == nil {
+			// the topic exists, DeleteExistingTopic ran topic.Delete() and is held before the unlink
+			if dying, dyingErr = e.StartDying(w.id, readDeadline); dyingErr == nil {
+				g.seqNames["pub:dying"] = dying.Name
+			} else {
+				g.seqNames["pub:dying"] = dyingPrefix + "not-prepared"
+			}
+		}
 		wire := g.Concretise(r.Cmd)
 		atomic.AddInt64(&w.cmds, 1)
 		steps = append(steps, StepLog{State: r.From.String(), Cmd: r.Cmd.String(), Bytes: wire.Desc, Expect: r.Expect()})
+		if dyingErr != nil {
+			// not the daemon's protocol behaviour: this sequence is inconclusive, never a violation
+			return fail("infra", r, "the half-finished topic deletion could not be set up: %v", dyingErr)
+		}
+		if isDying {
+			if !dying.Parked() {
+				return fail("infra", r, "the deletion of %q is no longer parked before the publish was sent", dying.Name)
+			}
+			dying.Breadcrumb(e.scratch, idx, steps)
+		}
 		pub := isPub(r.Cmd.Op) && wire.Topic != ""
 		if pub {
-			w.pool[wire.Topic] = true
-			w.names[wire.Topic] = true
+			if !isDying { // a dying topic is private to this sequence and must be gone afterwards
+				w.pool[wire.Topic] = true
+				w.names[wire.Topic] = true
+			}
 			if _, ok := base[wire.Topic]; !ok {
 				ts, err := e.Topic(wire.Topic)
 				if err != nil {
@@ -271,6 +298,36 @@ func (w *Worker) runSeq(seq []Row, idx int, slowReqCheck bool) (mm *Mismatch) {
 			}
 			if r.Frame == "resp" && ts == nil {
 				return fail("enq", r, "topic %q does not exist after an accepted publish", wire.Topic)
+			}
+		}
+		if isDying {
+			// the answer, the closed connection and /stats (nothing enqueued: message_count and depth of the
+			// still linked topic unchanged) were judged above WHILE the deletion was parked
+			if !dying.Parked() {
+				return fail("infra", r, "the deletion of %q did not stay parked until the answer was judged", dying.Name)
+			}
+			atomic.AddInt64(&w.dyingRows, 1)
+			if err := dying.Release(readDeadline); err != nil {
+				return fail("infra", r, "%v", err)
+			}
+			// the deletion is complete: the topic is gone (the rejected publish neither kept nor re-created
+			// it, nothing was enqueued under its name) and the daemon still serves
+			ts, err := e.Topic(wire.Topic)
+			if err != nil {
+				if aerr := e.Alive(); aerr != nil {
+					return fail("daemon", r, "nsqd is not alive after a publish to a topic that was being deleted: %v", aerr)
+				}
+				return fail("infra", r, "stats: %v", err)
+			}
+			if ts != nil && (ts.Count > 0 || ts.Depth > 0) {
+				return fail("enq", r, "a REJECTED publish enqueued: topic %q exists after its deletion finished, message_count=%d depth=%d",
+					wire.Topic, ts.Count, ts.Depth)
+			}
+			if ts != nil {
+				return fail("topic", r, "topic %q exists (empty) after its deletion finished", wire.Topic)
+			}
+			if err := e.Alive(); err != nil {
+				return fail("daemon", r, "nsqd is not alive after a publish to a topic that was being deleted: %v", err)
 			}
 		}
 		if r.Cmd.Op == "SUB" && r.Frame == "resp" {
@@ -549,6 +606,7 @@ type ReplayReport struct {
 	Limits       map[string]Limits   `json:"limits"`
 	Samples      []interface{}       `json:"samples"`
 	SlowChecks   int                 `json:"slow_req_checks"`
+	DyingRows    int64               `json:"dying_rows"`
 	WallS        float64             `json:"wall_s"`
 }
 
@@ -574,6 +632,7 @@ func cmdReplay(args []string) int {
 		return die(err)
 	}
 	rep := &ReplayReport{RowsTotal: tab.N, Bystander: map[string][2]int64{}, Limits: map[string]Limits{}}
+	installDyingGate() // one gate for all in-process daemons (dying.go)
 
 	lr := rand.New(rand.NewSource(*seed))
 	type envRun struct {
@@ -751,14 +810,15 @@ func cmdReplay(args []string) int {
 	for _, w := range allWorkers {
 		rep.Commands += atomic.LoadInt64(&w.cmds)
 		rep.SlowChecks += w.slowChecks
+		rep.DyingRows += atomic.LoadInt64(&w.dyingRows)
 	}
 	sort.Slice(rep.Violations, func(i, j int) bool { return rep.Violations[i].Key() < rep.Violations[j].Key() })
 	rep.WallS = time.Since(t0).Seconds()
 	if err := writeJSON(*report, rep); err != nil {
 		return die(err)
 	}
-	fmt.Printf("replay: %d sequences (%d nodes), %d runs, %d commands, rows %d/%d, %d violations, %d drift, %d inconclusive, %d unreproduced, %.1fs\n",
-		rep.Sequences, rep.Nodes, rep.Runs, rep.Commands, rep.RowsCovered, rep.RowsTotal, len(rep.Violations), len(rep.Drift),
+	fmt.Printf("replay: %d sequences (%d nodes), %d runs, %d commands, rows %d/%d, %d publishes to a topic being deleted, %d violations, %d drift, %d inconclusive, %d unreproduced, %.1fs\n",
+		rep.Sequences, rep.Nodes, rep.Runs, rep.Commands, rep.RowsCovered, rep.RowsTotal, rep.DyingRows, len(rep.Violations), len(rep.Drift),
 		len(rep.Inconclusive), len(rep.Unreproduced), rep.WallS)
 	if len(rep.Violations) > 0 {
 		return 1
